@@ -741,6 +741,7 @@ package tally
 //@ initonly scopeRegistry.root, scopeRegistry.subscopes, scopeRegistry.omitCardinalityMetrics, scopeRegistry.cardinalityMetricsTags, scopeRegistry.sanitizedCounterCardinalityName, scopeRegistry.sanitizedGaugeCardinalityName, scopeRegistry.sanitizedHistogramCardinalityName, scopeRegistry.sanitizedScopeCardinalityName, scopeRegistry.cachedCounterCardinalityGauge, scopeRegistry.cachedGaugeCardinalityGauge, scopeRegistry.cachedHistogramCardinalityGauge, scopeRegistry.cachedScopeCardinalityGauge
 //@ initonly scopeBucket.s, bucketCache.cache, counter.cachedCount, gauge.cachedGauge, timer.name, timer.tags, timer.reporter, timer.cachedTimer
 //@ initonly histogram.htype, histogram.name, histogram.tags, histogram.reporter, histogram.specification, histogram.buckets, histogram.samples
+//@ initonly elements []*scopeBucket
 //@ monotone scope.closed
 //@ mark closedSeen, flushed, startedClosed
 //@ on call (*scopeRegistry).reportInternalMetrics: startedClosed[r] = closedSeen[r.root]
@@ -1011,3 +1012,43 @@ package tally
 //@   loop 2 invariant @buckets forall j int :: 0 <= j && j < i ==> r.subscopes[j] != nil && fresh(r.subscopes[j]) && r.subscopes[j].s != nil && kspec1(root.prefix, root.tags) in r.subscopes[j].s && r.subscopes[j].s[kspec1(root.prefix, root.tags)] == root && (forall k string :: k in r.subscopes[j].s ==> k == kspec1(root.prefix, root.tags))
 //@   loop 2 invariant @caller_tags_untouched forall k string :: (k in cardinalityMetricsTags) == old(k in cardinalityMetricsTags)
 //@   loop 2 invariant @existing_scope_maps_untouched forall m map[string]*scope :: allocated(m) ==> len(m) == old(len(m)) && (forall k string :: (k in m) == old(k in m) && m[k] == old(m[k]))
+
+//@ func NewSanitizer
+//@   property C06
+//@   trusted
+//@   allocs
+//@   ensures @non_nil result != nil
+
+//@ func NewNoOpSanitizer
+//@   property C06
+//@   trusted
+//@   allocs
+//@   ensures @non_nil result != nil
+//@   ensures @identity forall x string :: pcall(Sanitizer.Name, result, x) == x && pcall(Sanitizer.Key, result, x) == x && pcall(Sanitizer.Value, result, x) == x
+
+//@ func (*scope).reportLoop
+//@   property C08
+//@   emits
+//@   requires rootWF(s)
+//@   modifies *
+//@   loop 1 invariant @wf rootWF(s)
+
+//@ func newRootScope$1
+//@   property C08
+//@   emits
+//@   requires rootWF(s)
+//@   modifies *
+//@   ensures @done_is_signalled_last len(calls) > old(len(calls)) && calls[len(calls)-1] == evn("wg.Done:.wg", s)
+
+//@ func newRootScope
+//@   property C04, C06, C08
+//@   emits
+//@   allocs
+//@   ensures @fresh result != nil && fresh(result) && result.root && !result.closed && result.testScope == opts.testScope
+//@   ensures @prefix_and_separator_sanitized result.prefix == sanN(result, opts.Prefix) && result.separator == sanN(result, (opts.Separator == "" ? "." : opts.Separator))
+//@   ensures @reporters same(result.reporter, opts.Reporter) && same(result.cachedReporter, opts.CachedReporter) && (opts.Reporter != nil ==> same(result.baseReporter, iface2(opts.Reporter.tag, opts.Reporter.pay))) && (opts.Reporter == nil && opts.CachedReporter != nil ==> same(result.baseReporter, iface2(opts.CachedReporter.tag, opts.CachedReporter.pay)))
+//@   ensures @tags_are_a_sanitized_copy result.tags != nil && fresh(result.tags) && (forall k2 string :: k2 in result.tags ==> (exists k string :: k in opts.Tags && k2 == pcall(Sanitizer.Key, result.sanitizer, k) && result.tags[k2] == pcall(Sanitizer.Value, result.sanitizer, opts.Tags[k]))) && (forall k string :: k in opts.Tags ==> pcall(Sanitizer.Key, result.sanitizer, k) in result.tags)
+//@   ensures @registered result.registry != nil && result.registry.root == result && len(result.registry.subscopes) >= 1
+//@   ensures @well_formed scopeWF(result)
+//@   ensures @reporting_goroutine_tracked interval > 0 ==> (exists p int :: old(len(calls)) <= p && p + 1 < len(calls) && calls[p] == evn("wg.Add:.wg", result) && calls[p+1] == evn("go:github.com/uber-go/tally/v4.newRootScope$1"))
+//@   requires opts.DefaultBuckets == nil || is(opts.DefaultBuckets, ValueBuckets) || is(opts.DefaultBuckets, DurationBuckets)
